@@ -51,6 +51,15 @@ def _sig_store(d, it, codes):
     return None
 
 
+def _sig_c09(d, it, codes):
+    store = d.get("store", "?") if isinstance(d, dict) else "?"
+    if codes and all(c in (11,) for c in codes):
+        return "C09/stale-refresh-write/" + store
+    if codes and all(c in (12,) for c in codes):
+        return "C09/stale-callback-write/" + store
+    return None
+
+
 def _sig_hist(d, it, codes):
     return None
 
@@ -99,6 +108,13 @@ PROPS = {
         "theorems": ["C15_never_panics", "C15_total"],
         "describe_item": _hist_item, "trusted": _HANDLER_TRUSTED,
         "assumptions": ["panics inside third-party libraries are visible only to the recover() of the correspondence run, not to the theorem"],
+    },
+    "C09": {
+        "modules": ["Properties.C09"],
+        "theorems": ["C09_logout_response", "C09_sequential_final", "C09_concurrent_final_refuted", "C09_concurrent_partial"],
+        "describe_item": _hist_item, "signature": _sig_c09, "trusted": _HANDLER_TRUSTED + [
+            "schedules are enforced by gates in the spying store wrappers and in the loopback token endpoint (one effect at a time); the Go scheduler and memory model below that granularity are C12/C16's business"],
+        "assumptions": ["the generator never hands out a session id twice (fresh ids; C06)", "store calls are atomic (C12)"],
     },
     "C10": {
         "modules": ["Properties.C10"],
